@@ -506,7 +506,7 @@ Proof.
       * apply next_op_lok.
     + priv I HT Hpc. repeat split; auto; try lia; try (apply L2; auto; lia).
   - (* TGet *) destruct LT as (L1 & L2 & L3 & L4). priv I HT Hpc.
-    repeat split; auto; try (apply L4; auto). destruct (L4 H) as [_ D]. exact D.
+    repeat split; auto; try (apply L4; auto); try (destruct (L4 H) as [_ D]; exact D).
   - (* TCas *) destruct LT as (L1 & L2 & L3 & L4).
     destruct (Z.eqb_spec (top s) (t T)) as [E|E]; cbn [fst].
     + destruct (L4 E) as (D1 & D2 & D3).
@@ -528,4 +528,680 @@ Proof.
       * intros Hu. rewrite HT. apply next_op_hx; auto.
       * apply next_op_lok.
   - (* Fin *) exact I.
+Qed.
+
+(* ------------------------------------------------------------------ *)
+(* Every reachable state of the executable machine satisfies Inv      *)
+Theorem reachable_inv l start progs s :
+  owner_only progs -> reachable M (init l start progs) s -> Inv s.
+Proof.
+  intros O. apply (invariant_ind M Inv (init l start progs)).
+  - apply init_inv; auto.
+  - intros s0 u I _. apply step_inv; exact I.
+Qed.
+
+(* ------------------------------------------------------------------ *)
+(* logical content of the deque and the token held by a pop between its
+   winning CAS and its return                                           *)
+Definition content (s : st) : list Z := map (get (arrs s (cur s))) (zrange (top s) (Lc s)).
+Definition held (s : st) : list Z :=
+  match pc (thr s 0%nat) with OFixW => [rv (thr s 0%nat)] | _ => [] end.
+
+Lemma content_eq s s' :
+  top s' = top s -> Lc s' = Lc s ->
+  (forall j, top s <= j < Lc s -> get (arrs s' (cur s')) j = get (arrs s (cur s)) j) ->
+  content s' = content s.
+Proof.
+  intros Et El Hg. unfold content. rewrite Et, El. apply map_ext_in. intros j Hj.
+  apply in_zrange in Hj. apply Hg; auto.
+Qed.
+
+Lemma held_other s s' u x :
+  thr s' = upd (thr s) u x -> pc (thr s u) <> OFixW -> pc x <> OFixW -> held s' = held s.
+Proof.
+  intros E H1 H2. unfold held. rewrite E. destruct (Nat.eq_dec 0%nat u) as [<-|Hne].
+  - rewrite upd_same. destruct (pc x); try congruence; destruct (pc (thr s 0%nat)); congruence.
+  - rewrite upd_other by assumption. reflexivity.
+Qed.
+
+Lemma next_op_not_fixw T : pc (next_op T) <> OFixW.
+Proof. unfold next_op. destruct (prog T) as [|[v| |] r]; cbn; discriminate. Qed.
+
+Lemma Lc_set_thr s u x : lkind (pc x) = lkind (pc (thr s u)) -> Lc (set_thr s u x) = Lc s.
+Proof. intros K. unfold Lc; cbn [thr bot set_thr]. rewrite pc0_upd; auto. Qed.
+
+Lemma private_effect s u x :
+  lkind (pc x) = lkind (pc (thr s u)) -> pc (thr s u) <> OFixW -> pc x <> OFixW ->
+  held (set_thr s u x) = held s /\ content (set_thr s u x) = content s.
+Proof.
+  intros K H1 H2. split.
+  - apply (held_other s _ u x); auto.
+  - apply content_eq; auto. apply Lc_set_thr; auto.
+Qed.
+
+(* what one step does to (held, content), by the pc of the stepping thread *)
+Definition effect_ok (s s' : st) (T : tst) : Prop :=
+  match pc T with
+  | USt => held s' = held s /\ content s' = content s ++ [arg T]
+  | TCas => if top s =? t T then held s' = held s /\ content s = rv T :: content s'
+            else held s' = held s /\ content s' = content s
+  | OGetN => held s = [] /\ held s' = [] /\ content s = content s' ++ [get (arrs s (a T)) (b T)]
+  | OCas => if top s =? t T then held s = [] /\ held s' = [rv T] /\ content s = [rv T] /\ content s' = []
+            else held s' = held s /\ content s' = content s
+  | OFixW => held s = [rv T] /\ held s' = [] /\ content s' = content s
+  | _ => held s' = held s /\ content s' = content s
+  end.
+
+Ltac priv_eff HT Hpc :=
+  apply private_effect; [ rewrite <- HT, Hpc; reflexivity | rewrite <- HT, Hpc; discriminate | cbn [pc mk with_pc]; discriminate ].
+
+Lemma step_effect s u : Inv s -> effect_ok s (fst (step s u)) (thr s u).
+Proof.
+  intros I. unfold step, effect_ok. remember (thr s u) as T eqn:HT.
+  assert (LT := i_loc s I u). rewrite <- HT in LT. unfold local_ok, lok in LT.
+  pose proof (i_top s I) as Itop. pose proof (i_cap s I) as Icap. pose proof (i_cur s I) as Icur.
+  destruct (pc T) eqn:Hpc; cbn [fst].
+  - (* UBot *) priv_eff HT Hpc.
+  - (* UTop *) priv_eff HT Hpc.
+  - (* UArr *) owner0 I HT Hpc u.
+    assert (K0 : lkind (pc (thr s 0)) = 0%nat) by (rewrite <- HT, Hpc; reflexivity).
+    rewrite Z.geb_leb. destruct (Z.leb_spec (asize (arrs s (cur s)) - 1) (b T - t T)) as [G|G]; cbn [fst].
+    + set (x := mk (if (t T <? b T)%Z then UGRd else UGSt) (b T) (t T) (cur s) (S (narr s)) (t T) (arg T) (rv T) (prog T) (opi T)).
+      assert (Kx : lkind (pc x) = 0%nat) by (unfold x; destruct (t T <? b T)%Z; reflexivity).
+      split.
+      * apply (held_other s _ 0%nat x); [reflexivity | rewrite <- HT, Hpc; discriminate | unfold x; destruct (t T <? b T)%Z; discriminate].
+      * apply content_eq; [reflexivity | unfold Lc; cbn [thr bot]; rewrite upd_same, Kx, K0; reflexivity |].
+        intros j _. cbn [arrs cur]. rewrite upd_other by lia. reflexivity.
+    + priv_eff HT Hpc.
+  - (* UGRd *) priv_eff HT Hpc.
+  - (* UGWr *) owner0 I HT Hpc u.
+    assert (K0 : lkind (pc (thr s 0)) = 0%nat) by (rewrite <- HT, Hpc; reflexivity).
+    destruct LT as (G & L1 & L2). destruct G as (G1 & G2 & G3 & G4 & G5 & G6 & G7 & G8 & G9).
+    set (x := mk (if (i T + 1 <? b T)%Z then UGRd else UGSt) (b T) (t T) (a T) (na T) (i T + 1) (arg T) (rv T) (prog T) (opi T)).
+    assert (Kx : lkind (pc x) = 0%nat) by (unfold x; destruct (i T + 1 <? b T)%Z; reflexivity).
+    split.
+    * apply (held_other s _ 0%nat x); [reflexivity | rewrite <- HT, Hpc; discriminate | unfold x; destruct (i T + 1 <? b T)%Z; discriminate].
+    * apply content_eq; [reflexivity | unfold Lc; cbn [thr bot]; rewrite upd_same, Kx, K0; reflexivity |].
+      intros j _. cbn [arrs cur]. rewrite upd_other by lia. reflexivity.
+  - (* UGSt *) owner0 I HT Hpc u.
+    assert (K0 : lkind (pc (thr s 0)) = 0%nat) by (rewrite <- HT, Hpc; reflexivity).
+    destruct LT as (G & L1). destruct G as (G1 & G2 & G3 & G4 & G5 & G6 & G7 & G8 & G9).
+    split.
+    * eapply (held_other s _ 0%nat); [reflexivity | rewrite <- HT, Hpc; discriminate | cbn; discriminate].
+    * apply content_eq; [reflexivity | ls_new K0; reflexivity |].
+      intros j Hj. unfold Lc in Hj; rewrite K0 in Hj; cbn in Hj. cbn [arrs cur]. apply G9. lia.
+  - (* UPut *) owner0 I HT Hpc u.
+    assert (K0 : lkind (pc (thr s 0)) = 0%nat) by (rewrite <- HT, Hpc; reflexivity).
+    destruct LT as (L1 & L2 & L3 & L4). rewrite L3 in *.
+    split.
+    * eapply (held_other s _ 0%nat); [reflexivity | rewrite <- HT, Hpc; discriminate | cbn; discriminate].
+    * apply content_eq; [reflexivity | ls_new K0; reflexivity |].
+      intros j Hj. unfold Lc in Hj; rewrite K0 in Hj; cbn in Hj. cbn [arrs cur]. rewrite upd_same.
+      apply get_put_other; lia.
+  - (* USt *) owner0 I HT Hpc u.
+    assert (K0 : lkind (pc (thr s 0)) = 0%nat) by (rewrite <- HT, Hpc; reflexivity).
+    destruct LT as (L1 & L2 & L3 & L4 & L5).
+    unfold Ls in Itop; rewrite K0 in Itop; cbn in Itop.
+    split.
+    * eapply (held_other s _ 0%nat); [reflexivity | rewrite <- HT, Hpc; discriminate | apply next_op_not_fixw].
+    * unfold content. ls_new K0. rewrite L1, zrange_snoc by lia. rewrite map_app. cbn [map]. rewrite <- L1, L5. reflexivity.
+  - (* OBot *) priv_eff HT Hpc.
+  - (* OArr *) priv_eff HT Hpc.
+  - (* OSt *) owner0 I HT Hpc u.
+    assert (K0 : lkind (pc (thr s 0)) = 0%nat) by (rewrite <- HT, Hpc; reflexivity).
+    destruct LT as (L1 & L2).
+    split.
+    * eapply (held_other s _ 0%nat); [reflexivity | rewrite <- HT, Hpc; discriminate | cbn; discriminate].
+    * apply content_eq; [reflexivity | ls_new K0; lia | reflexivity].
+  - (* OTop *) owner0 I HT Hpc u.
+    assert (K0 : lkind (pc (thr s 0)) = 1%nat) by (rewrite <- HT, Hpc; reflexivity).
+    set (p := if (b T - top s <? 0)%Z then OEmp else if (0 <? b T - top s)%Z then OGetN else OGet1).
+    assert (Kp : Lc_of (lkind p) (bot s) = bot s + 1)
+      by (unfold p; destruct (b T - top s <? 0)%Z; [reflexivity|]; destruct (0 <? b T - top s)%Z; reflexivity).
+    split.
+    * eapply (held_other s _ 0%nat); [reflexivity | rewrite <- HT, Hpc; discriminate |].
+      cbn [pc mk]. unfold p. destruct (b T - top s <? 0)%Z; [discriminate|]. destruct (0 <? b T - top s)%Z; discriminate.
+    * apply content_eq; [reflexivity | | reflexivity].
+      unfold Lc; cbn [thr bot set_thr]; rewrite upd_same, K0. cbn [pc mk]. fold p. rewrite Kp. reflexivity.
+  - (* OEmp *) owner0 I HT Hpc u.
+    assert (K0 : lkind (pc (thr s 0)) = 1%nat) by (rewrite <- HT, Hpc; reflexivity).
+    destruct LT as (L1 & L2 & L3 & L4).
+    split.
+    * eapply (held_other s _ 0%nat); [reflexivity | rewrite <- HT, Hpc; discriminate | apply next_op_not_fixw].
+    * apply content_eq; [reflexivity | ls_new K0; lia | reflexivity].
+  - (* OGetN *) owner0 I HT Hpc u.
+    assert (K0 : lkind (pc (thr s 0)) = 2%nat) by (rewrite <- HT, Hpc; reflexivity).
+    destruct LT as (L1 & L2 & L3).
+    unfold Ls in Itop; rewrite K0 in Itop; cbn in Itop.
+    split; [|split].
+    * unfold held. rewrite <- HT, Hpc. reflexivity.
+    * unfold held. cbn [thr set_thr]. rewrite upd_same. pose proof (next_op_not_fixw T). destruct (pc (next_op T)); congruence.
+    * unfold content. ls_new K0. rewrite zrange_snoc by lia. rewrite map_app. cbn [map]. rewrite L1, L2. reflexivity.
+  - (* OGet1 *) priv_eff HT Hpc.
+  - (* OCas *) owner0 I HT Hpc u.
+    assert (K0 : lkind (pc (thr s 0)) = 1%nat) by (rewrite <- HT, Hpc; reflexivity).
+    destruct LT as (L1 & L2 & L3 & L4 & L5).
+    destruct (Z.eqb_spec (top s) (t T)) as [E|E]; cbn [fst].
+    + split; [|split; [|split]].
+      * unfold held. rewrite <- HT, Hpc. reflexivity.
+      * unfold held. cbn [thr]. rewrite upd_same. reflexivity.
+      * unfold content, Lc. rewrite K0. cbn [Lc_of]. rewrite E, L3, L1.
+        rewrite zrange_cons by lia. rewrite zrange_nil by lia. cbn [map]. rewrite L5, L1. reflexivity.
+      * unfold content. ls_new K0. rewrite zrange_nil by lia. reflexivity.
+    + priv_eff HT Hpc.
+  - (* OFixW *) owner0 I HT Hpc u.
+    assert (K0 : lkind (pc (thr s 0)) = 1%nat) by (rewrite <- HT, Hpc; reflexivity).
+    destruct LT as (L1 & L2 & L3 & L4).
+    split; [|split].
+    * unfold held. rewrite <- HT, Hpc. reflexivity.
+    * unfold held. cbn [thr]. rewrite upd_same. pose proof (next_op_not_fixw T). destruct (pc (next_op T)); congruence.
+    * apply content_eq; [reflexivity | ls_new K0; lia | reflexivity].
+  - (* OFixL *) owner0 I HT Hpc u.
+    assert (K0 : lkind (pc (thr s 0)) = 1%nat) by (rewrite <- HT, Hpc; reflexivity).
+    destruct LT as (L1 & L2 & L3 & L4).
+    split.
+    * eapply (held_other s _ 0%nat); [reflexivity | rewrite <- HT, Hpc; discriminate | apply next_op_not_fixw].
+    * apply content_eq; [reflexivity | ls_new K0; lia | reflexivity].
+  - (* TTop *) priv_eff HT Hpc.
+  - (* TBot *) priv_eff HT Hpc.
+  - (* TArr *) destruct (Z.leb_spec (b T - t T) 0); cbn [fst].
+    + apply private_effect; [ rewrite next_op_lkind, <- HT, Hpc; reflexivity | rewrite <- HT, Hpc; discriminate | apply next_op_not_fixw ].
+    + priv_eff HT Hpc.
+  - (* TGet *) priv_eff HT Hpc.
+  - (* TCas *) destruct LT as (L1 & L2 & L3 & L4).
+    destruct (Z.eqb_spec (top s) (t T)) as [E|E]; cbn [fst].
+    + destruct (L4 E) as (D1 & D2 & D3).
+      assert (K : lkind (pc (upd (thr s) u (next_op T) 0%nat)) = lkind (pc (thr s 0%nat)))
+        by (apply pc0_upd; rewrite next_op_lkind, <- HT, Hpc; reflexivity).
+      split.
+      * eapply (held_other s _ u); [reflexivity | rewrite <- HT, Hpc; discriminate | apply next_op_not_fixw].
+      * unfold content, Lc. cbn [thr bot top cur arrs]. rewrite K.
+        pose proof (Ls_le_Lc (lkind (pc (thr s 0%nat))) (bot s)) as LL. unfold Ls in D1.
+        rewrite (zrange_cons (top s)) by lia. cbn [map]. rewrite E, D3. reflexivity.
+    + apply private_effect; [ rewrite next_op_lkind, <- HT, Hpc; reflexivity | rewrite <- HT, Hpc; discriminate | apply next_op_not_fixw ].
+  - (* Fin *) auto.
+Qed.
+
+(* ------------------------------------------------------------------ *)
+(* order-preserving sublists                                            *)
+Inductive subseq {A : Type} : list A -> list A -> Prop :=
+| sub_nil : subseq [] []
+| sub_skip x l1 l2 : subseq l1 l2 -> subseq l1 (x :: l2)
+| sub_take x l1 l2 : subseq l1 l2 -> subseq (x :: l1) (x :: l2).
+
+Lemma subseq_refl {A} (l : list A) : subseq l l.
+Proof. induction l; [apply sub_nil | apply sub_take; auto]. Qed.
+Lemma subseq_nil_l {A} (l : list A) : subseq [] l.
+Proof. induction l; constructor; auto. Qed.
+Lemma subseq_app2 {A} (a1 b1 a2 b2 : list A) : subseq a1 b1 -> subseq a2 b2 -> subseq (a1 ++ a2) (b1 ++ b2).
+Proof. intros H1 H2. induction H1; cbn; auto; [apply sub_skip | apply sub_take]; auto. Qed.
+Lemma subseq_trans {A} (l1 l2 l3 : list A) : subseq l1 l2 -> subseq l2 l3 -> subseq l1 l3.
+Proof.
+  intros H12 H23. revert l1 H12. induction H23; intros l0 H12.
+  - exact H12.
+  - apply sub_skip. auto.
+  - inversion H12; subst; [apply sub_skip | apply sub_take]; auto.
+Qed.
+Lemma subseq_app_r {A} (l m : list A) : subseq l (l ++ m).
+Proof. rewrite <- (app_nil_r l) at 1. apply subseq_app2; [apply subseq_refl|apply subseq_nil_l]. Qed.
+Lemma subseq_app_l {A} (l m : list A) : subseq m (l ++ m).
+Proof. change m with ([] ++ m) at 1. apply subseq_app2; [apply subseq_nil_l|apply subseq_refl]. Qed.
+Lemma subseq_In {A} (l m : list A) x : subseq l m -> In x l -> In x m.
+Proof. intros H. induction H; cbn; intuition. Qed.
+
+(* ------------------------------------------------------------------ *)
+(* History: the machine instrumented with the log of tokens pushed (in the
+   order the pushes published them), the log of tokens returned by steals
+   and the log of tokens returned by pops, each appended by exactly the step
+   that emits the corresponding return event.                           *)
+Record ist := { base : st; plog : list Z; slog : list Z; olog : list Z }.
+
+Definition lstep (x : ist) (u : nat) : ist :=
+  let s := base x in
+  let T := thr s u in
+  let s' := fst (step s u) in
+  match pc T with
+  | USt => {| base := s'; plog := plog x ++ [arg T]; slog := slog x; olog := olog x |}
+  | TCas => if (top s =? t T)%Z
+            then {| base := s'; plog := plog x; slog := slog x ++ [rv T]; olog := olog x |}
+            else {| base := s'; plog := plog x; slog := slog x; olog := olog x |}
+  | OGetN => {| base := s'; plog := plog x; slog := slog x; olog := olog x ++ [get (arrs s (a T)) (b T)] |}
+  | OFixW => {| base := s'; plog := plog x; slog := slog x; olog := olog x ++ [rv T] |}
+  | _ => {| base := s'; plog := plog x; slog := slog x; olog := olog x |}
+  end.
+
+Lemma lstep_erase x u : base (lstep x u) = fst (step (base x) u).
+Proof. unfold lstep. destruct (pc (thr (base x) u)); try reflexivity.
+  match goal with |- context [if ?c then _ else _] => destruct c end; reflexivity. Qed.
+
+Definition iinit l start progs : ist :=
+  {| base := init l start progs; plog := []; slog := []; olog := [] |}.
+
+Inductive ireach l start progs : ist -> Prop :=
+| ir_init : ireach l start progs (iinit l start progs)
+| ir_step x u : ireach l start progs x -> ireach l start progs (lstep x u).
+
+Definition irun (x : ist) (sch : list nat) : ist := fold_left lstep sch x.
+Lemma ireach_irun l start progs sch : forall x, ireach l start progs x -> ireach l start progs (irun x sch).
+Proof. induction sch as [|u r IH]; intros x R; cbn; auto. apply IH. constructor. exact R. Qed.
+
+(* the logs are exactly the values of the return events *)
+Lemma app_one_neq {A} (l : list A) v : l <> l ++ [v].
+Proof. intros E. apply (f_equal (@length A)) in E. rewrite app_length in E. cbn in E. lia. Qed.
+
+Lemma lstep_logs_are_returns x u :
+  let T := thr (base x) u in
+  let e := snd (step (base x) u) in
+  (forall v, plog (lstep x u) = plog x ++ [v] -> pc T = USt /\ v = arg T /\ exists e0, e = e0 ++ ret u T 1) /\
+  (forall v, slog (lstep x u) = slog x ++ [v] -> pc T = TCas /\ exists e0, e = e0 ++ ret u T v) /\
+  (forall v, olog (lstep x u) = olog x ++ [v] -> (pc T = OGetN \/ pc T = OFixW) /\ exists e0, e = e0 ++ ret u T v).
+Proof.
+  cbn zeta. unfold lstep, step. destruct (pc (thr (base x) u)) eqn:Hpc;
+    repeat match goal with |- context [if ?c then _ else _] => destruct c end;
+    cbn [plog slog olog snd]; (split; [|split]); intros v E;
+    try (exfalso; exact (app_one_neq _ _ E));
+    apply app_inj_tail in E; destruct E as [_ <-]; repeat split; auto; eexists; reflexivity.
+Qed.
+
+(* tokens the owner's program will still push *)
+Definition tokens (p : list op) : list Z :=
+  flat_map (fun o => match o with OPush v => [v] | _ => [] end) p.
+Definition in_push (p : pcT) : bool :=
+  match p with UBot | UTop | UArr | UGRd | UGWr | UGSt | UPut | USt => true | _ => false end.
+Definition pend (T : tst) : list Z := (if in_push (pc T) then [arg T] else []) ++ tokens (prog T).
+
+Lemma pend_next_op T : pend (next_op T) = tokens (prog T).
+Proof. unfold pend, next_op. destruct (prog T) as [|[v| |] r]; reflexivity. Qed.
+
+Lemma step_thr_other s u v : v <> u -> thr (fst (step s u)) v = thr s v.
+Proof.
+  intros H. unfold step. destruct (pc (thr s u));
+    repeat match goal with |- context [if ?c then _ else _] => destruct c end;
+    cbn [fst thr set_thr]; try rewrite upd_other by assumption; reflexivity.
+Qed.
+
+Lemma step_pend0 s :
+  pend (thr s 0%nat) =
+  (match pc (thr s 0%nat) with USt => [arg (thr s 0%nat)] | _ => [] end) ++ pend (thr (fst (step s 0%nat)) 0%nat).
+Proof.
+  unfold step. destruct (pc (thr s 0%nat)) eqn:Hpc;
+    repeat match goal with |- context [if ?c then _ else _] => destruct c eqn:? end;
+    cbn [fst thr set_thr]; rewrite ?upd_same; rewrite ?pend_next_op;
+    unfold pend; rewrite ?Hpc; cbn [pc prog arg mk with_pc in_push app]; try reflexivity.
+  all: rewrite Hpc; reflexivity.
+Qed.
+
+Lemma step_pend s u : Inv s ->
+  pend (thr s 0%nat) =
+  (match pc (thr s u) with USt => [arg (thr s u)] | _ => [] end) ++ pend (thr (fst (step s u)) 0%nat).
+Proof.
+  intros I. destruct (Nat.eq_dec u 0%nat) as [->|Hne].
+  - apply step_pend0.
+  - rewrite step_thr_other by auto. pose proof (proj1 (i_thief s I u Hne)) as Hp.
+    destruct (pc (thr s u)); cbn in Hp; try contradiction; reflexivity.
+Qed.
+
+Definition cnt := count_occ Z.eq_dec.
+
+Record LInv (p0 : list Z) (x : ist) : Prop := {
+  l_inv : Inv (base x);
+  l_cnt : forall v, (cnt (plog x) v = cnt (slog x) v + cnt (olog x) v + cnt (held (base x)) v + cnt (content (base x)) v)%nat;
+  l_sub : subseq (slog x ++ content (base x)) (plog x);
+  l_prog : p0 = plog x ++ pend (thr (base x) 0%nat)
+}.
+
+Lemma cnt_app l m v : cnt (l ++ m) v = (cnt l v + cnt m v)%nat.
+Proof. apply count_occ_app. Qed.
+
+Lemma linv_step p0 x u : LInv p0 x -> LInv p0 (lstep x u).
+Proof.
+  intros [I C S P]. assert (I' := step_inv (base x) u I).
+  assert (E := step_effect (base x) u I). assert (PD := step_pend (base x) u I).
+  unfold effect_ok in E. unfold lstep.
+  destruct (pc (thr (base x) u)) eqn:Hpc.
+  all: try (destruct E as [E1 E2]; constructor; cbn [base plog slog olog]; auto;
+            [ intros v; rewrite E1, E2; apply C | rewrite E2; exact S | rewrite P, PD; reflexivity ]; fail).
+  - (* USt *) destruct E as [E1 E2]. constructor; cbn [base plog slog olog]; auto.
+    + intros v. rewrite E1, E2, !cnt_app, C. lia.
+    + rewrite E2, app_assoc. apply subseq_app2; [exact S|apply subseq_refl].
+    + rewrite P, PD, <- app_assoc. reflexivity.
+  - (* OGetN *) destruct E as (E1 & E2 & E3). constructor; cbn [base plog slog olog]; auto.
+    + intros v. rewrite C, E1, E2, E3, !cnt_app. lia.
+    + rewrite E3, app_assoc in S. eapply subseq_trans; [apply subseq_app_r|exact S].
+    + rewrite P, PD; reflexivity.
+  - (* OCas *) destruct (top (base x) =? t (thr (base x) u))%Z.
+    + destruct E as (E1 & E2 & E3 & E4). constructor; cbn [base plog slog olog]; auto.
+      * intros v. rewrite C, E1, E2, E3, E4. cbn. lia.
+      * rewrite E4. rewrite E3 in S. eapply subseq_trans; [|exact S]. apply subseq_app2; [apply subseq_refl|apply subseq_nil_l].
+      * rewrite P, PD; reflexivity.
+    + destruct E as [E1 E2]. constructor; cbn [base plog slog olog]; auto.
+      * intros v; rewrite E1, E2; apply C.
+      * rewrite E2; exact S.
+      * rewrite P, PD; reflexivity.
+  - (* OFixW *) destruct E as (E1 & E2 & E3). constructor; cbn [base plog slog olog]; auto.
+    + intros v. rewrite C, E1, E2, E3, !cnt_app. cbn. lia.
+    + rewrite E3; exact S.
+    + rewrite P, PD; reflexivity.
+  - (* TCas *) destruct (top (base x) =? t (thr (base x) u))%Z.
+    + destruct E as (E1 & E2). constructor; cbn [base plog slog olog]; auto.
+      * intros v. rewrite C, E1, E2, !cnt_app. cbn. destruct (Z.eq_dec (rv (thr (base x) u)) v); lia.
+      * rewrite <- app_assoc. cbn [app]. rewrite <- E2. exact S.
+      * rewrite P, PD; reflexivity.
+    + destruct E as [E1 E2]. constructor; cbn [base plog slog olog]; auto.
+      * intros v; rewrite E1, E2; apply C.
+      * rewrite E2; exact S.
+      * rewrite P, PD; reflexivity.
+Qed.
+
+Theorem ireach_linv l start progs x :
+  owner_only progs -> ireach l start progs x -> LInv (tokens (nth 0 progs [])) x.
+Proof.
+  intros O R. induction R as [|x u R IH].
+  - constructor; cbn [base plog slog olog iinit].
+    + apply init_inv; auto.
+    + intros v. unfold content, held, Lc. cbn [init thr top bot cur arrs]. unfold idle_thread.
+      rewrite next_op_lkind. cbn [Lc_of]. rewrite zrange_nil by lia.
+      pose proof (next_op_not_fixw (mk Fin 0 0 0 0 0 0 0 (nth 0 progs []) 0)) as NF.
+      destruct (pc (next_op (mk Fin 0 0 0 0 0 0 0 (nth 0 progs []) 0))); try congruence; reflexivity.
+    + unfold content, Lc. cbn [init thr top bot cur arrs]. unfold idle_thread.
+      rewrite next_op_lkind. cbn [Lc_of]. rewrite zrange_nil by lia. constructor.
+    + cbn [init thr]. unfold idle_thread. rewrite pend_next_op. reflexivity.
+  - apply linv_step; exact IH.
+Qed.
+
+(* ------------------------------------------------------------------ *)
+(* ---------- the statements used by Properties_C02_deque.v ---------- *)
+
+Lemma cnt_In l v : In v l <-> (cnt l v > 0)%nat.
+Proof. apply count_occ_In. Qed.
+
+Lemma returned_le_pushed p0 x : LInv p0 x ->
+  forall v, (cnt (slog x) v + cnt (olog x) v <= cnt (plog x) v)%nat.
+Proof. intros L v. rewrite (l_cnt p0 x L v). lia. Qed.
+
+Lemma pushed_perm p0 x : LInv p0 x ->
+  Permutation (plog x) (slog x ++ olog x ++ held (base x) ++ content (base x)).
+Proof.
+  intros L. apply (Permutation_count_occ Z.eq_dec). intros v.
+  fold (cnt (plog x) v). fold (cnt (slog x ++ olog x ++ held (base x) ++ content (base x)) v).
+  rewrite !cnt_app, (l_cnt p0 x L v). lia.
+Qed.
+
+Lemma exactly_once_of_linv p0 x : LInv p0 x ->
+  (forall v, (cnt (slog x) v + cnt (olog x) v <= cnt (plog x) v)%nat) /\
+  (exists rest, Permutation (plog x) (slog x ++ olog x ++ rest)) /\
+  (exists later, p0 = plog x ++ later) /\
+  (NoDup p0 -> NoDup (slog x ++ olog x) /\ incl (slog x ++ olog x) (plog x)).
+Proof.
+  intros L. split; [apply (returned_le_pushed p0); auto|]. split; [|split].
+  - exists (held (base x) ++ content (base x)). apply (pushed_perm p0); auto.
+  - exists (pend (thr (base x) 0%nat)). apply (l_prog p0 x L).
+  - intros ND. split.
+    + apply (NoDup_count_occ Z.eq_dec). intros v. fold (cnt (slog x ++ olog x) v).
+      rewrite cnt_app. pose proof (returned_le_pushed p0 x L v) as H1.
+      pose proof (proj1 (NoDup_count_occ Z.eq_dec p0) ND v) as H2. fold (cnt p0 v) in H2.
+      rewrite (l_prog p0 x L), cnt_app in H2. lia.
+    + intros v Hv. apply cnt_In in Hv. apply cnt_In. rewrite cnt_app in Hv.
+      pose proof (returned_le_pushed p0 x L v). lia.
+Qed.
+
+Lemma in_content s v : In v (content s) <-> exists j, (top s <= j < Lc s)%Z /\ get (arrs s (cur s)) j = v.
+Proof.
+  unfold content. rewrite in_map_iff. split; intros [j [A B]]; exists j.
+  - apply in_zrange in B. auto.
+  - split; [tauto|]. apply in_zrange. tauto.
+Qed.
+
+Lemma no_loss_of_linv p0 x : LInv p0 x ->
+  Permutation (plog x) (slog x ++ olog x ++ held (base x) ++ content (base x)) /\
+  (forall v, In v (plog x) ->
+     In v (slog x ++ olog x) \/ In v (held (base x)) \/
+     exists j, (top (base x) <= j < Lc (base x))%Z /\ get (arrs (base x) (cur (base x))) j = v).
+Proof.
+  intros L. split; [apply (pushed_perm p0); auto|].
+  intros v Hv. apply cnt_In in Hv. rewrite (l_cnt p0 x L v) in Hv.
+  destruct (Nat.eq_dec (cnt (slog x) v + cnt (olog x) v) 0) as [Z1|N1].
+  - destruct (Nat.eq_dec (cnt (held (base x)) v) 0) as [Z2|N2].
+    + right; right. apply in_content. apply cnt_In. lia.
+    + right; left. apply cnt_In. lia.
+  - left. apply cnt_In. rewrite cnt_app. lia.
+Qed.
+
+(* no call of the owner between its speculative decrement of bottom and its
+   return: the content is the index range [top, bottom) *)
+Lemma quiescent_of_linv p0 x : LInv p0 x ->
+  lkind (pc (thr (base x) 0%nat)) = 0%nat ->
+  content (base x) = map (get (arrs (base x) (cur (base x)))) (zrange (top (base x)) (bot (base x))) /\
+  held (base x) = [] /\
+  Permutation (plog x) (slog x ++ olog x ++ content (base x)) /\
+  subseq (slog x ++ content (base x)) (plog x) /\
+  (top (base x) <= bot (base x))%Z.
+Proof.
+  intros L K. assert (H : held (base x) = []).
+  { unfold held. destruct (pc (thr (base x) 0%nat)); try reflexivity; discriminate. }
+  split; [|split; [|split; [|split]]]; auto.
+  - unfold content, Lc. rewrite K. reflexivity.
+  - pose proof (pushed_perm p0 x L) as P. rewrite H in P. exact P.
+  - apply (l_sub p0 x L).
+  - pose proof (i_top _ (l_inv p0 x L)) as T. unfold Ls in T. rewrite K in T. exact T.
+Qed.
+
+Lemma order_of_linv p0 x : LInv p0 x ->
+  subseq (slog x ++ content (base x)) (plog x) /\
+  (forall u, pc (thr (base x) u) = TCas -> top (base x) = t (thr (base x) u) ->
+     exists rest, content (base x) = rv (thr (base x) u) :: rest) /\
+  (forall u, pc (thr (base x) u) = OGetN ->
+     exists front, content (base x) = front ++ [get (arrs (base x) (a (thr (base x) u))) (b (thr (base x) u))]) /\
+  (forall u, pc (thr (base x) u) = OCas -> top (base x) = t (thr (base x) u) ->
+     content (base x) = [rv (thr (base x) u)]).
+Proof.
+  intros L. pose proof (l_inv p0 x L) as I. split; [apply (l_sub p0 x L)|]. split; [|split].
+  - intros u Hpc E. pose proof (step_effect (base x) u I) as F. unfold effect_ok in F. rewrite Hpc in F.
+    rewrite (proj2 (Z.eqb_eq _ _) E) in F. destruct F as [_ F]. eexists; exact F.
+  - intros u Hpc. pose proof (step_effect (base x) u I) as F. unfold effect_ok in F. rewrite Hpc in F.
+    destruct F as (_ & _ & F). eexists; exact F.
+  - intros u Hpc E. pose proof (step_effect (base x) u I) as F. unfold effect_ok in F. rewrite Hpc in F.
+    rewrite (proj2 (Z.eqb_eq _ _) E) in F. tauto.
+Qed.
+
+Lemma content_nil s : (Lc s <= top s)%Z -> content s = [].
+Proof. intros H. unfold content. rewrite zrange_nil by lia. reflexivity. Qed.
+
+Lemma content_length s : (top s <= Lc s)%Z -> Z.of_nat (length (content s)) = (Lc s - top s)%Z.
+Proof. intros H. unfold content, zrange. rewrite !map_length, seq_length. lia. Qed.
+
+Lemma abort_of_inv s u : Inv s ->
+  (pc (thr s u) = OCas -> top s <> t (thr s u) ->
+     top s = (t (thr s u) + 1)%Z /\ bot s = t (thr s u) /\ content s = [] /\ u = 0%nat) /\
+  (pc (thr s u) = OFixL ->
+     top s = (t (thr s u) + 1)%Z /\ bot s = t (thr s u) /\ content s = [] /\ u = 0%nat) /\
+  (pc (thr s u) = TCas -> top s <> t (thr s u) -> (t (thr s u) < top s)%Z).
+Proof.
+  intros I. pose proof (i_loc s I u) as LT. unfold local_ok, lok in LT.
+  pose proof (i_top s I) as Itop. split; [|split].
+  - intros Hpc E. assert (U0 : u = 0%nat) by (apply (owner_is_0 s u I); rewrite Hpc; cbn; tauto). subst u.
+    rewrite Hpc in LT. destruct LT as (L1 & L2 & L3 & L4 & L5).
+    unfold Ls in Itop. rewrite Hpc in Itop. cbn in Itop.
+    repeat split; try lia. apply content_nil. unfold Lc. rewrite Hpc. cbn. lia.
+  - intros Hpc. assert (U0 : u = 0%nat) by (apply (owner_is_0 s u I); rewrite Hpc; cbn; tauto). subst u.
+    rewrite Hpc in LT. destruct LT as (L1 & L2 & L3 & L4).
+    repeat split; try lia. apply content_nil. unfold Lc. rewrite Hpc. cbn. lia.
+  - intros Hpc E. rewrite Hpc in LT. lia.
+Qed.
+
+Lemma empty_of_inv s u : Inv s ->
+  (* pop: at the load of top that makes it return EMPTY the deque is empty *)
+  (pc (thr s u) = OTop -> (b (thr s u) - top s < 0)%Z -> content s = []) /\
+  (pc (thr s u) = OEmp -> content s = [] /\ (b (thr s u) < t (thr s u))%Z) /\
+  (* steal: at the load of bottom that makes it return EMPTY at most the one
+     element an in-flight pop is about to take is present *)
+  (pc (thr s u) = TBot -> (bot s - t (thr s u) <= 0)%Z ->
+     content s = [] \/ (lkind (pc (thr s 0%nat)) <> 0%nat /\ length (content s) = 1%nat)) /\
+  (pc (thr s u) = TArr -> (b (thr s u) - t (thr s u) <= 0)%Z -> (b (thr s u) <= t (thr s u))%Z).
+Proof.
+  intros I. pose proof (i_loc s I u) as LT. unfold local_ok, lok in LT.
+  pose proof (i_top s I) as Itop. split; [|split; [|split]].
+  - intros Hpc E. assert (U0 : u = 0%nat) by (apply (owner_is_0 s u I); rewrite Hpc; cbn; tauto). subst u.
+    rewrite Hpc in LT. destruct LT as (L1 & L2). apply content_nil. unfold Lc. rewrite Hpc. cbn. lia.
+  - intros Hpc. assert (U0 : u = 0%nat) by (apply (owner_is_0 s u I); rewrite Hpc; cbn; tauto). subst u.
+    rewrite Hpc in LT. destruct LT as (L1 & L2 & L3 & L4). split; [|lia].
+    apply content_nil. unfold Lc. rewrite Hpc. cbn. lia.
+  - intros Hpc E. rewrite Hpc in LT.
+    pose proof (Ls_le_Lc (lkind (pc (thr s 0%nat))) (bot s)) as LL. fold (Ls s) in LL. fold (Lc s) in LL.
+    destruct (Z_le_gt_dec (Lc s) (top s)) as [H|H]; [left; apply content_nil; auto|].
+    right. assert (K : lkind (pc (thr s 0%nat)) <> 0%nat).
+    { intros K. unfold Lc in H. rewrite K in H. cbn in H. lia. }
+    split; auto. assert (Lc s - top s = 1)%Z.
+    { unfold Lc in *. destruct (lkind (pc (thr s 0%nat))) as [|k]; [congruence|]. cbn in *. lia. }
+    pose proof (content_length s ltac:(lia)). lia.
+  - intros _ E. lia.
+Qed.
+
+Lemma growth_of_inv s u : Inv s ->
+  (pc (thr s u) = UGSt ->
+     u = 0%nat /\ a (thr s u) = cur s /\
+     lg (arrs s (na (thr s u))) = S (lg (arrs s (cur s))) /\
+     (forall j, (t (thr s u) <= j < b (thr s u))%Z -> get (arrs s (na (thr s u))) j = get (arrs s (cur s)) j) /\
+     (t (thr s u) <= top s)%Z /\ b (thr s u) = bot s /\
+     map (get (arrs s (na (thr s u)))) (zrange (top s) (Lc s)) = content s) /\
+  (pc (thr s u) = TGet -> top s = t (thr s u) ->
+     (a (thr s u) <= cur s)%nat /\
+     get (arrs s (a (thr s u))) (t (thr s u)) = get (arrs s (cur s)) (t (thr s u)) /\
+     exists rest, content s = get (arrs s (a (thr s u))) (t (thr s u)) :: rest) /\
+  (pc (thr s u) = TCas -> top s = t (thr s u) ->
+     (a (thr s u) <= cur s)%nat /\ rv (thr s u) = get (arrs s (cur s)) (t (thr s u)) /\
+     exists rest, content s = rv (thr s u) :: rest).
+Proof.
+  intros I. pose proof (i_loc s I u) as LT. unfold local_ok, lok in LT.
+  pose proof (i_top s I) as Itop. split; [|split].
+  - intros Hpc. assert (U0 : u = 0%nat) by (apply (owner_is_0 s u I); rewrite Hpc; cbn; tauto). subst u.
+    rewrite Hpc in LT. destruct LT as (G & L1). destruct G as (G1 & G2 & G3 & G4 & G5 & G6 & G7 & G8 & G9).
+    repeat split; auto.
+    + intros j Hj. apply G9. lia.
+    + unfold content. apply map_ext_in. intros j Hj. apply in_zrange in Hj.
+      unfold Lc in Hj. rewrite Hpc in Hj. cbn in Hj. apply G9. lia.
+  - intros Hpc E. rewrite Hpc in LT. destruct LT as (L1 & L2 & L3 & L4). destruct (L4 E) as [D1 D2].
+    repeat split; auto.
+    pose proof (Ls_le_Lc (lkind (pc (thr s 0%nat))) (bot s)) as LL. fold (Ls s) in LL. fold (Lc s) in LL.
+    unfold content. rewrite zrange_cons by lia. cbn [map]. rewrite E, D2. eexists; reflexivity.
+  - intros Hpc E. rewrite Hpc in LT. destruct LT as (L1 & L2 & L3 & L4). destruct (L4 E) as (D1 & D2 & D3).
+    repeat split; auto.
+    pose proof (Ls_le_Lc (lkind (pc (thr s 0%nat))) (bot s)) as LL. fold (Ls s) in LL. fold (Lc s) in LL.
+    unfold content. rewrite zrange_cons by lia. cbn [map]. rewrite E, D3. eexists; reflexivity.
+Qed.
+
+(* structural safety: bounds, capacity, and the slot a push writes is outside
+   the live range (it never overwrites an unreturned token) *)
+Lemma safety_of_inv s u : Inv s ->
+  (top s <= Ls s <= Lc s)%Z /\ (bot s <= Ls s)%Z /\ (Lc s <= bot s + 1)%Z /\
+  (Lc s - top s <= asize (arrs s (cur s)) - 1)%Z /\
+  (pc (thr s u) = UPut ->
+     u = 0%nat /\ a (thr s u) = cur s /\ b (thr s u) = bot s /\
+     forall j, (top s <= j < bot s)%Z -> slot (arrs s (cur s)) j <> slot (arrs s (cur s)) (b (thr s u))) /\
+  (forall v, v <> 0%nat -> thief_pc (pc (thr s v))).
+Proof.
+  intros I. pose proof (i_loc s I u) as LT. unfold local_ok, lok in LT.
+  pose proof (i_top s I) as Itop. pose proof (i_cap s I) as Icap.
+  pose proof (Ls_le_Lc (lkind (pc (thr s 0%nat))) (bot s)) as LL. fold (Ls s) in LL. fold (Lc s) in LL.
+  pose proof (bt_le_Ls (lkind (pc (thr s 0%nat))) (bot s)) as LB. fold (Ls s) in LB.
+  repeat split; auto; try lia.
+  - unfold Lc. destruct (lkind (pc (thr s 0%nat))); cbn; lia.
+  - apply (owner_is_0 s u I). rewrite H. cbn. tauto.
+  - rewrite H in LT. tauto.
+  - rewrite H in LT. tauto.
+  - rewrite H in LT. destruct LT as (L1 & L2 & L3 & L4). intros j Hj. unfold slot.
+    apply zmod_neq; [apply asize_pos|lia|lia].
+  - intros v Hv. apply (i_thief s I v Hv).
+Qed.
+
+(* ------------------------------------------------------------------ *)
+(* ABORT of a pop, in terms of the history: the last successful steal took
+   exactly the element the pop was competing for                        *)
+Definition stolen_last (x : ist) : Prop :=
+  exists sl, slog x = sl ++ [get (arrs (base x) (cur (base x))) (b (thr (base x) 0%nat))].
+
+Definition aclause (x : ist) : Prop :=
+  match pc (thr (base x) 0%nat) with
+  | OGet1 | OCas => top (base x) <> t (thr (base x) 0%nat) -> stolen_last x
+  | OFixL => stolen_last x
+  | _ => True
+  end.
+
+Lemma next_op_pc T : pc (next_op T) = UBot \/ pc (next_op T) = OBot \/ pc (next_op T) = TTop \/ pc (next_op T) = Fin.
+Proof. unfold next_op. destruct (prog T) as [|[v| |] r]; cbn; auto. Qed.
+
+Lemma thief_step_frame s u : thief_pc (pc (thr s u)) ->
+  let s' := fst (step s u) in
+  arrs s' = arrs s /\ cur s' = cur s /\ bot s' = bot s /\
+  (top s' = top s \/ (pc (thr s u) = TCas /\ top s = t (thr s u) /\ top s' = (t (thr s u) + 1)%Z)).
+Proof.
+  intros H. unfold step. destruct (pc (thr s u)) eqn:Hpc; cbn in H; try contradiction;
+    repeat match goal with |- context [if ?c then _ else _] => destruct c eqn:? end;
+    cbn [fst arrs cur bot top set_thr]; repeat split; auto.
+  right. repeat split; auto. apply Z.eqb_eq; auto.
+Qed.
+
+Lemma aclause_step p0 x u : LInv p0 x -> aclause x -> aclause (lstep x u).
+Proof.
+  intros L A. pose proof (l_inv p0 x L) as I.
+  destruct (Nat.eq_dec u 0%nat) as [->|Hne].
+  - (* the owner steps *)
+    unfold aclause in *. rewrite lstep_erase.
+    pose proof (i_loc _ I 0%nat) as LT. unfold local_ok, lok in LT.
+    unfold lstep, step, stolen_last in *.
+    destruct (pc (thr (base x) 0%nat)) eqn:Hpc;
+      repeat match goal with |- context [if ?c then _ else _] => destruct c eqn:? end;
+      cbn [fst base thr slog top bot cur arrs set_thr]; rewrite ?upd_same; cbn [pc b t mk with_pc];
+      try exact Logic.I;
+      try (destruct (next_op_pc (thr (base x) 0%nat)) as [E|[E|[E|E]]]; rewrite E; exact Logic.I).
+    + (* OTop -> OGet1 *) intros E. congruence.
+    + (* OGet1 -> OCas *) exact A.
+    + (* OCas fails *) apply A. apply Z.eqb_neq. assumption.
+    + (* Fin *) rewrite Hpc. exact Logic.I.
+  - (* a thief steps *)
+    pose proof (proj1 (i_thief _ I u Hne)) as Hp.
+    pose proof (thief_step_frame (base x) u Hp) as (Fa & Fc & Fb & Ft).
+    pose proof (i_loc _ I u) as LU. unfold local_ok, lok in LU.
+    pose proof (i_loc _ I 0%nat) as L0. unfold local_ok, lok in L0.
+    unfold aclause, stolen_last in *. rewrite lstep_erase.
+    rewrite (step_thr_other (base x) u 0%nat) by auto. rewrite Fa, Fc.
+    destruct Ft as [Ft|(Hpc & Et & Ft)].
+    + (* top unchanged: the steal log is unchanged too *)
+      assert (Es : slog (lstep x u) = slog x).
+      { unfold lstep. destruct (pc (thr (base x) u)) eqn:Hpc; try reflexivity.
+        destruct (Z.eqb_spec (top (base x)) (t (thr (base x) u))) as [E|E]; [|reflexivity].
+        exfalso. unfold step in Ft. rewrite Hpc in Ft. rewrite (proj2 (Z.eqb_eq _ _) E) in Ft. cbn in Ft. lia. }
+      rewrite Es, Ft. exact A.
+    + (* a successful steal *)
+      assert (Es : slog (lstep x u) = slog x ++ [rv (thr (base x) u)]).
+      { unfold lstep. rewrite Hpc, (proj2 (Z.eqb_eq _ _) Et). reflexivity. }
+      rewrite Es, Ft. rewrite Hpc in LU. destruct LU as (U1 & U2 & U3 & U4). destruct (U4 Et) as (D1 & D2 & D3).
+      unfold Ls in D1.
+      destruct (pc (thr (base x) 0%nat)) eqn:Hpc0; try exact Logic.I; cbn in D1.
+      * destruct L0 as (A1 & A2 & A3 & A4). intros _. exists (slog x). do 2 f_equal. rewrite D3. f_equal. lia.
+      * destruct L0 as (A1 & A2 & A3 & A4 & A5). intros _. exists (slog x). do 2 f_equal. rewrite D3. f_equal. lia.
+      * destruct L0 as (A1 & A2 & A3 & A4). exfalso. lia.
+Qed.
+
+Theorem ireach_ainv l start progs x :
+  owner_only progs -> ireach l start progs x -> aclause x.
+Proof.
+  intros O R. induction R as [|x u R IH].
+  - unfold aclause. cbn [base iinit init thr]. unfold idle_thread.
+    destruct (next_op_pc (mk Fin 0 0 0 0 0 0 0 (nth 0 progs []) 0)) as [E|[E|[E|E]]]; rewrite E; exact Logic.I.
+  - eapply aclause_step; eauto. apply ireach_linv; auto.
+Qed.
+
+Lemma pop_abort_history l start progs x :
+  owner_only progs -> ireach l start progs x ->
+  let s := base x in let T := thr s 0%nat in
+  (pc T = OCas -> top s <> t T -> exists sl, slog x = sl ++ [rv T]) /\
+  (pc T = OFixL -> exists sl, slog x = sl ++ [get (arrs s (cur s)) (b T)]).
+Proof.
+  intros O R. cbn zeta. pose proof (ireach_ainv l start progs x O R) as A.
+  pose proof (l_inv _ x (ireach_linv l start progs x O R)) as I.
+  pose proof (i_loc _ I 0%nat) as L0. unfold local_ok, lok in L0.
+  unfold aclause, stolen_last in A. split.
+  - intros Hpc E. rewrite Hpc in A, L0. destruct L0 as (A1 & A2 & A3 & A4 & A5). rewrite A5. apply A; auto.
+  - intros Hpc. rewrite Hpc in A. exact A.
 Qed.
